@@ -1,11 +1,26 @@
 """
 C19 bounded tier: the interval predicates exhaustively over a coordinate range, the all-vs-all scan
 and the asm-format --qc-overlaps report against a brute-force oracle written from the statement.
+
+The command line is driven through every way it can be handed an assembly: one file argument, several
+file arguments (each its own assembly), STDIN; AGP and TPF input (format from the extension, from
+-i, in either case); output to STDOUT or to a file, in each output format; with and without -n; the
+flag before or after the other arguments; in process (click's CliRunner) and as a real child process
+with a pipe on its standard input.  Whatever the route, the pairs reported on STDERR must be exactly
+the brute-force overlapping pairs of each assembly.
 """
 
+import collections
+import contextlib
 import itertools
+import json
+import os
+import pathlib
 import random
 import re
+import subprocess
+import sys
+import tempfile
 
 from click.testing import CliRunner
 
@@ -53,6 +68,8 @@ def replay(inp):
         a = Fragment(*inp["a"])
         b = Fragment(*inp["b"])
         check_pair(a, b, col, inp)
+    elif inp["kind"] == "cli":
+        check_cli(inp, col)
     else:
         check_scan(inp["scaffolds"], col, inp, cli=inp.get("cli", False))
     return col.failures[0]["message"] if col.failures else None
@@ -80,27 +97,276 @@ def check_scan(scaffolds, col, inp, cli=False):
     elif sorted(got) != sorted(want):
         col.fail(f"scan reported pairs {sorted(got)} expected {sorted(want)} (each unordered pair once)", inp)
     if cli:
-        from tola.assembly.scripts.asm_format import cli as asm_cli
-        import tempfile, pathlib
+        # recorded inputs of the earlier shape: the same assembly as one AGP file argument
+        check_cli(cli_input([{"scaffolds": scaffolds, "fmt": "AGP", "ext": ".agp"}], "args"), col)
 
-        with tempfile.TemporaryDirectory() as d:
-            pth = pathlib.Path(d) / "in.agp"
-            pth.write_text(agp_text(asm))
-            res = CliRunner().invoke(asm_cli, ["--qc-overlaps", str(pth)])
-            if res.exit_code != 0:
-                col.fail(f"asm-format --qc-overlaps failed: {res.exception!r}", inp)
-                return
-            n_reported = len(re.findall(r"^Overlap:$", res.stderr, flags=re.M))
-            if n_reported != len(want):
-                col.fail(f"asm-format --qc-overlaps reported {n_reported} overlaps, {len(want)} pairs overlap", inp)
+
+# ---------------------------------------------------------------------------------------------
+# asm-format --qc-overlaps, every input route
+#
+# An input is {"kind": "cli", "files": [{"scaffolds": [[(contig, start, end, strand), ...], ...],
+#   "fmt": "AGP"|"TPF", "ext": ".agp"|".tpf"|".txt"|..., "gaps": bool}, ...],
+#   "source": "args"|"stdin", "input_format": None|"AGP"|"tpf"|..., "out": None|"o.agp"|...,
+#   "format": None|"AGP"|"TPF"|"STR"|"REPR", "name": None|str, "flag": "first"|"last",
+#   "runner": "click"|"process"}
+# The text of each file is written here, line by line, from the AGP / TPF layouts (not with the
+# package's formatters), and the expected pairs are computed from the same tuples.
+
+AGP_STRAND = {1: "+", -1: "-", 0: "?"}
+TPF_STRAND = {1: "PLUS", -1: "MINUS"}
+
+
+def sc_name(fi, si):
+    # unique over all files of one invocation, so that a reported pair identifies its assembly
+    return f"f{fi}s{si}"
+
+
+def file_text(fi, spec):
+    lines = []
+    if spec.get("gaps"):
+        lines.append("# overlap QC input")
+    for si, rows in enumerate(spec["scaffolds"]):
+        sc, pos, n = sc_name(fi, si), 0, 0
+        for ri, (name, s, e, strand) in enumerate(rows):
+            if spec.get("gaps") and ri:
+                if spec["fmt"] == "AGP":
+                    n += 1
+                    lines.append(f"{sc}\t{pos + 1}\t{pos + 200}\t{n}\tU\t200\tscaffold\tyes\tproximity_ligation")
+                    pos += 200
+                else:
+                    lines.append("GAP\tTYPE-2\t200")
+            if spec["fmt"] == "AGP":
+                n += 1
+                ln = e - s + 1
+                lines.append(f"{sc}\t{pos + 1}\t{pos + ln}\t{n}\tW\t{name}\t{s}\t{e}\t{AGP_STRAND[strand]}")
+                pos += ln
+            else:
+                lines.append(f"?\t{name}:{s}-{e}\t{sc}\t{TPF_STRAND[strand]}")
+    return "".join(ln + "\n" for ln in lines)
+
+
+def expected_pairs(files):
+    """multiset of unordered pairs ((scaffold, contig, start, end), (...)): same contig name and at
+    least one shared base, both fragments in the same assembly (= the same input file)"""
+    want = collections.Counter()
+    for fi, spec in enumerate(files):
+        frags = [
+            (sc_name(fi, si), r[0], r[1], r[2])
+            for si, rows in enumerate(spec["scaffolds"])
+            for r in rows
+        ]
+        for x, y in itertools.combinations(frags, 2):
+            if x[1] == y[1] and set(range(x[2], x[3] + 1)) & set(range(y[2], y[3] + 1)):
+                want[tuple(sorted((x, y)))] += 1
+    return want
+
+
+REPORT_LINE = re.compile(r"(\S+) (.+):(\d+)-(\d+)\(.\)")
+
+
+def reported_pairs(stderr):
+    """(number of 'Overlap:' blocks, multiset of pairs or None if a block could not be read)"""
+    n = len(re.findall(r"^Overlap:$", stderr, flags=re.M))
+    got = collections.Counter()
+    blocks = re.findall(r"^Overlap:\n(.+)\n(.+)$", stderr, flags=re.M)
+    if len(blocks) != n:
+        return n, None
+    for l1, l2 in blocks:
+        m1, m2 = REPORT_LINE.match(l1), REPORT_LINE.match(l2)
+        if not (m1 and m2):
+            return n, None
+        pr = [(m.group(1), m.group(2), int(m.group(3)), int(m.group(4))) for m in (m1, m2)]
+        got[tuple(sorted(pr))] += 1
+    return n, got
+
+
+def cli_input(files, source, input_format=None, out=None, fmt=None, name=None, flag="first", runner="click"):
+    return {
+        "kind": "cli",
+        "files": files,
+        "source": source,
+        "input_format": input_format,
+        "out": out,
+        "format": fmt,
+        "name": name,
+        "flag": flag,
+        "runner": runner,
+    }
+
+
+def src_dir():
+    import tola.assembly.scripts.asm_format as m
+
+    return str(pathlib.Path(m.__file__).resolve().parents[3])
+
+
+WORKDIR = None  # run() sets one temporary directory for all its cases (one per case costs as much as the case)
+
+
+def check_cli(inp, col):
+    from tola.assembly.scripts.asm_format import cli as asm_cli
+
+    files = inp["files"]
+    want = expected_pairs(files)
+    with tempfile.TemporaryDirectory(dir=WORKDIR) if WORKDIR is None else contextlib.nullcontext(WORKDIR) as d:
+        d = pathlib.Path(d)
+        opts = []
+        if inp.get("input_format"):
+            opts += ["-i", inp["input_format"]]
+        if inp.get("out"):
+            opts += ["-o", str(d / inp["out"])]
+        if inp.get("format"):
+            opts += ["-f", inp["format"]]
+        if inp.get("name"):
+            opts += ["-n", inp["name"]]
+        paths, stdin_text = [], None
+        if inp["source"] == "stdin":
+            stdin_text = file_text(0, files[0])
+        else:
+            for fi, spec in enumerate(files):
+                pth = d / f"in{fi}{spec['ext']}"
+                pth.write_text(file_text(fi, spec))
+                paths.append(str(pth))
+        args = ["--qc-overlaps", *opts, *paths] if inp.get("flag", "first") == "first" else [*opts, *paths, "--qc-overlaps"]
+        shown = " ".join(a.replace(str(d) + "/", "") for a in args)
+        how = (
+            f"{files[0]['fmt']} on STDIN"
+            if stdin_text is not None
+            else "file arguments " + ", ".join(f"{s['fmt']} in{fi}{s['ext']}" for fi, s in enumerate(files))
+        )
+        how += ", child process" if inp.get("runner") == "process" else ""
+        if inp.get("runner") == "process":
+            env = dict(os.environ)
+            env["PYTHONPATH"] = os.pathsep.join([src_dir()] + [p for p in env.get("PYTHONPATH", "").split(os.pathsep) if p])
+            res = subprocess.run(
+                [sys.executable, "-m", "tola.assembly.scripts.asm_format", *args],
+                input=stdin_text if stdin_text is not None else "",
+                capture_output=True,
+                text=True,
+                cwd=d,
+                env=env,
+                timeout=120,
+            )
+            code, err, exc = res.returncode, res.stderr, res.stderr[-300:]
+        else:
+            from click.testing import CliRunner
+
+            res = CliRunner().invoke(asm_cli, args, input=stdin_text)
+            code, err, exc = res.exit_code, res.stderr, repr(res.exception)
+        if WORKDIR is not None:
+            for pth in d.iterdir():
+                pth.unlink()
+    if code != 0:
+        col.fail(f"asm-format {shown} ({how}) failed with status {code}: {exc}", inp)
+        return
+    n, got = reported_pairs(err)
+    n_want = sum(want.values())
+    if n != n_want:
+        col.fail(
+            f"asm-format {shown} ({how}) reported {n} overlaps on STDERR, {n_want} pairs of same-contig fragments "
+            f"share a base within an assembly: {fmt_pairs(want)}",
+            inp,
+        )
+    elif got is not None and got != want:
+        col.fail(
+            f"asm-format {shown} ({how}) reported the wrong pairs: missing {fmt_pairs(want - got)}, "
+            f"not overlapping (or not in one assembly) {fmt_pairs(got - want)}",
+            inp,
+        )
+
+
+def fmt_pairs(counter):
+    return "[" + "; ".join(
+        f"{a[0]} {a[1]}:{a[2]}-{a[3]} / {b[0]} {b[1]}:{b[2]}-{b[3]}" + (f" x{k}" if k > 1 else "")
+        for (a, b), k in sorted(counter.items())[:6]
+    ) + ("; ..." if len(counter) > 6 else "") + "]"
+
+
+# fixed assemblies for the route product: no overlap at all (abutting, disjoint, same coordinates on
+# another contig); a one-base overlap inside a scaffold plus a nested interval across scaffolds;
+# identical intervals three times (three pairs); unknown strand (AGP only)
+ASM_NONE = [[("c", 1, 4, 1), ("d", 1, 4, 1), ("c", 5, 6, -1)], [("c", 7, 7, 1)]]
+ASM_TWO = [[("c", 1, 4, 1), ("c", 4, 6, -1), ("d", 1, 4, 1)], [("d", 2, 3, 1), ("c", 7, 7, 1)]]
+ASM_DUP = [[("c", 1, 4, 1)], [("c", 1, 4, 1), ("c", 1, 7, -1)]]
+ASM_UNK = [[("c", 1, 4, 0), ("c", 2, 3, 1), ("c", 5, 5, 0)]]
+
+OUTS = (
+    (None, None),
+    ("o.agp", None),
+    ("o.tpf", None),
+    (None, "STR"),
+    (None, "REPR"),
+    (None, "TPF"),
+    ("o.txt", "AGP"),
+)
+
+
+def single_routes():
+    """every way of handing ONE assembly to the command: (source, fmt, ext, input_format, out, format, name, flag)"""
+    routes = []
+    for fmt in ("AGP", "TPF"):
+        ext = "." + fmt.lower()
+        # file argument: format from the extension, from -i (neutral or misleading extension), both
+        other = ".tpf" if fmt == "AGP" else ".agp"
+        via = [("args", ext, None), ("args", ".txt", fmt), ("args", ".txt", fmt.lower()), ("args", ext, fmt), ("args", other, fmt)]
+        if fmt == "AGP":
+            via.append(("args", ".txt", None))  # unknown extension defaults to AGP
+            via.append(("stdin", None, None))  # STDIN defaults to AGP
+        via += [("stdin", None, fmt), ("stdin", None, fmt.lower())]
+        for (source, fext, ifmt), (out, ofmt), name, flag in itertools.product(via, OUTS, (None, "nm"), ("first", "last")):
+            routes.append((source, fmt, fext, ifmt, out, ofmt, name, flag))
+    return routes
+
+
+def route_input(route, scaffolds, gaps=False, runner="click"):
+    source, fmt, fext, ifmt, out, ofmt, name, flag = route
+    files = [{"scaffolds": scaffolds, "fmt": fmt, "ext": fext or "", "gaps": gaps}]
+    return cli_input(files, source, ifmt, out, ofmt, name, flag, runner)
+
+
+def multi_inputs(tier):
+    """several file arguments: each is its own assembly; formats mixed (by extension) or forced by -i"""
+    combos2 = [(ASM_NONE, ASM_TWO), (ASM_TWO, ASM_NONE), (ASM_TWO, ASM_DUP), (ASM_TWO, ASM_TWO)]
+    combos3 = [(ASM_TWO, ASM_NONE, ASM_DUP), (ASM_NONE, ASM_NONE, ASM_TWO), (ASM_DUP, ASM_TWO, ASM_TWO)]
+    outs = OUTS if tier != "quick" else OUTS[:2] + OUTS[3:4]
+    for combo in combos2 + combos3:
+        for fmts in itertools.product(("AGP", "TPF"), repeat=len(combo)):
+            for oi, ((out, ofmt), flag) in enumerate(itertools.product(outs, ("first", "last"))):
+                if tier == "quick" and oi % 2 != len(combo) % 2:
+                    continue
+                files = [{"scaffolds": a, "fmt": f, "ext": "." + f.lower(), "gaps": fi % 2 == 1} for fi, (a, f) in enumerate(zip(combo, fmts))]
+                yield cli_input(files, "args", None, out, ofmt, None, flag)
+                if len(set(fmts)) == 1:
+                    files = [dict(f, ext=".txt") for f in files]
+                    yield cli_input(files, "args", fmts[0], out, ofmt, "nm", flag)
+
+
+def cli_case(inp, col, sample=False):
+    check_cli(inp, col)
+    n_pairs = sum(expected_pairs(inp["files"]).values())
+    col.case(("cli", json.dumps(inp, sort_keys=True)), nontrivial=n_pairs > 0, sample=inp if sample else None)
 
 
 def run(tier, seed, **opts):
+    global WORKDIR
+    with tempfile.TemporaryDirectory() as d:
+        WORKDIR = d
+        try:
+            return run_in(tier, seed, **opts)
+        finally:
+            WORKDIR = None
+
+
+def run_in(tier, seed, **opts):
     rng = random.Random(seed)
     N = 6 if tier == "quick" else 9
     col = Collector(
         f"all pairs of intervals within 1..{N} (same and different name, strands +/-/?), and all-vs-all scans of "
-        "small assemblies with duplicate/nested/abutting/disjoint intervals; non-trivial = distinct (input) tuples"
+        "small assemblies with duplicate/nested/abutting/disjoint intervals; asm-format --qc-overlaps over the "
+        "product of input routes (file argument / several files / STDIN, AGP / TPF by extension or -i, output to "
+        "STDOUT or a file in each format, -n, flag position; in process and as a child process) on fixed assemblies "
+        "with 0, 2 and 3 overlapping pairs, and on every k-th enumerated assembly with the routes taken in rotation; "
+        "non-trivial = distinct (input) tuples (for the command line: at least one overlapping pair expected)"
     )
     ivs = [(s, e) for s in range(1, N + 1) for e in range(s, N + 1)]
     for (s1, e1), (s2, e2) in itertools.product(ivs, ivs):
@@ -113,15 +379,39 @@ def run(tier, seed, **opts):
     pool = [("c", 1, 4, 1), ("c", 2, 3, 1), ("c", 4, 6, -1), ("c", 5, 6, 1), ("c", 1, 4, 1), ("d", 1, 4, 1), ("c", 7, 7, 1), ("c", 1, 7, -1)]
     max_n = 4 if tier == "quick" else 5
     count = 0
+    # the command line: every single-assembly route on the fixed assemblies
+    routes = single_routes()
+    for ri, route in enumerate(routes):
+        asms = (ASM_TWO, ASM_NONE, ASM_DUP) + ((ASM_UNK,) if route[1] == "AGP" else ())
+        if tier == "quick":  # every route sees overlapping pairs; the other assemblies in rotation
+            asms = (ASM_TWO, asms[1 + ri % (len(asms) - 1)])
+        for ai, scs in enumerate(asms):
+            cli_case(route_input(route, scs, gaps=(ri + ai) % 2 == 1), col, sample=(ri == 40 and ai == 0))
+    for mi, inp in enumerate(multi_inputs(tier)):
+        cli_case(inp, col, sample=mi == 7)
+    # ... and as a real child process with a pipe on STDIN (a few in quick, a spread of routes in thorough)
+    proc_routes = [r for r in routes if r[4:] == (None, None, None, "first") and r[2] in (None, ".agp", ".tpf") and r[3] in (None, "TPF")]
+    if tier != "quick":
+        proc_routes += routes[7::23]
+    for route in proc_routes:
+        cli_case(route_input(route, ASM_TWO, runner="process"), col)
+    two = [{"scaffolds": ASM_NONE, "fmt": "AGP", "ext": ".agp"}, {"scaffolds": ASM_DUP, "fmt": "TPF", "ext": ".tpf"}]
+    cli_case(cli_input(two, "args", runner="process"), col)
+    every = 41 if tier == "quick" else 13
+    rot = 0
     for n in range(1, max_n + 1):
         for combo in itertools.product(range(len(pool)), repeat=n):
             rows = [pool[i] for i in combo]
             for split in range(0, n + 1, max(1, n // 2)):
                 scs = [rows[:split], rows[split:]] if 0 < split < n else [rows]
                 scs = [s for s in scs if s]
-                inp = {"kind": "scan", "scaffolds": scs, "cli": count % 97 == 0}
-                check_scan(scs, col, inp, cli=inp["cli"])
+                inp = {"kind": "scan", "scaffolds": scs, "cli": False}
+                check_scan(scs, col, inp)
                 col.case(("scan", tuple(map(tuple, scs))), nontrivial=n > 1, sample=inp if count == 500 else None)
+                if count % every == 0:
+                    # the same assembly through the command line, routes in rotation (stride coprime to their number)
+                    cli_case(route_input(routes[(rot * 37) % len(routes)], [list(map(list, s)) for s in scs], gaps=rot % 3 == 0), col)
+                    rot += 1
                 count += 1
             if col.full:
                 break
